@@ -73,6 +73,16 @@ def reads_for(rng, spec, seq, count):
             a = rng.randint(0, m)
             b = rng.randint(a, m)
             reads.append(U.mutate(rng, seq[a:b], rng.choice([0, 0, 1]), "ACGT"))
+    # characters that are no letters (".", "-", "*", "?", digits: unknown bases in some pipelines): where the adapter has a wildcard
+    # character the read gets one of them -- the aligner and the k-mer finder must keep agreeing on every ASCII character
+    if any(c not in "ACGT" for c in seq.upper()) and rng.random() < 0.6:
+        extra = []
+        for _ in range(3):
+            core_ = "".join((rng.choice(".-*?7") if (c.upper() not in "ACGT" and rng.random() < 0.7) else c) for c in seq)
+            if rng.random() < 0.5:
+                core_ = U.mutate(rng, core_, 1, "ACGT", "s")
+            extra.append(U.rand_seq(rng, rng.randint(0, 5), "ACGT") + core_ + U.rand_seq(rng, rng.randint(0, 5), "ACGT"))
+        reads += extra
     return reads
 
 
@@ -160,6 +170,8 @@ def check(ctx):
                 conc = "".join(c if c in "ACGT" else rng.choice("ACGT") for c in kmer.upper())
                 probes += [conc, "TT" + conc + "GG", conc.replace("A", "N", 1)]
             for pr in probes:
+                if window_oob(kf.positions_and_kmers, len(pr)):
+                    continue   # a window reaching past the read end makes the compiled code read beyond the buffer (F7c): not comparable
                 if pr and kf.kmers_present(pr) != pkf.kmers_present(pr):
                     ctx.violation("pickled k-mer finder answers differently: %s" % spec.typ,
                                   {"adapter": spec.to_json(), "read": pr, "original": kf.kmers_present(pr), "after_pickle": pkf.kmers_present(pr), "pickled": True})
